@@ -122,8 +122,9 @@ def gen_multi_unit(sc, sidecar_path, repo):
     # prepare-before-subscribe: all new_observer calls textually precede the first inner_subscribe
     body = sk.body_group
     no = [p[i].start for p, i, g in rxprep.find_calls(body.kids, 'new_observer')]
-    isub = [p[i].start for p, i, g in rxprep.find_calls(body.kids, 'inner_subscribe')]
-    late_registration = bool(no and isub and max(no) > min(isub) and not sc.get('allow_late_registration'))
+    isub_end = [g.end for p, i, g in rxprep.find_calls(body.kids, 'inner_subscribe')]
+    # an inner_subscribe(..) call that is completely finished before some new_observer(..) call starts
+    late_registration = bool(no and isub_end and max(no) > min(isub_end) and not sc.get('allow_late_registration'))
     for c in cells:
         if c not in sk.cells and c not in sk.outer_cells:
             sk_problems.append('state cell `%s` not found' % c)
@@ -140,11 +141,11 @@ def gen_multi_unit(sc, sidecar_path, repo):
     if len(sk.handlers_all) != len(observers):
         raise UnitError('skeleton', '; '.join(sk_problems))
     all_cells = list(cells.keys())
-    helper_sigs = {h: all_cells + list(captures.keys()) + ['sctl'] for h in sk.helpers}
+    helper_sigs = {h: ([] if h in sk.fn_helpers else all_cells + list(captures.keys()) + ['sctl']) for h in sk.helpers}
     fns, twins, meta = [], [], []
     names = ['next', 'error', 'complete']
 
-    def emit(fn_name, cl, ptypes, hc, extra_params=None, is_helper=False):
+    def emit(fn_name, cl, ptypes, hc, extra_params=None, is_helper=False, fn_helper=False):
         try:
             ex = rxprep.rewrite_body(cl, sk, src, op, captures, helper_sigs)
         except NotExtractable as e:
@@ -155,8 +156,11 @@ def gen_multi_unit(sc, sidecar_path, repo):
             if len(pn) > 1:
                 t = t.replace('$x', pn[1]).replace('$e', pn[1])
             return t
-        params = ['%s: &mut %s' % (c, cells[c]) for c in all_cells] + ['%s: %s' % (c, t) for c, t in captures.items()]
-        params += ['sctl: &mut SctlModel<%s>' % tout] + ['%s: %s' % (p, ptypes[k]) for k, p in enumerate(pn)]
+        if fn_helper:
+            params = ['%s: %s' % (p, ptypes[k]) for k, p in enumerate(pn)]
+        else:
+            params = ['%s: &mut %s' % (c, cells[c]) for c in all_cells] + ['%s: %s' % (c, t) for c, t in captures.items()]
+            params += ['sctl: &mut SctlModel<%s>' % tout] + ['%s: %s' % (p, ptypes[k]) for k, p in enumerate(pn)]
         if not is_helper:
             params += ['Ghost(h): Ghost<%s>' % hist_t] + list(extra_params or []) + [subst(g) for g in sc.get('ghost_params', [])]
         req = ['old(sctl).wf()'] + ([] if is_helper else [subst(x) for x in sc.get('requires_all', [])]) + [subst(x) for x in hc.get('requires', [])]
@@ -208,7 +212,7 @@ def gen_multi_unit(sc, sidecar_path, repo):
                 continue
             sk_problems.append('helper closure `%s` has no contract' % hname)
             continue
-        emit('%s_%s' % (op, hname), cl, hc['param_types'], hc, is_helper=True)
+        emit('%s_%s' % (op, hname), cl, hc['param_types'], hc, is_helper=True, fn_helper=hname in sk.fn_helpers)
     # init
     ic = sc.get('init', {})
     lets = []
@@ -216,7 +220,7 @@ def gen_multi_unit(sc, sidecar_path, repo):
         init = (sk.cells.get(c) or (sk.outer_cells.get(c), 0))[0]
         lets.append('    let %s: %s = /*BEGIN-EXTRACTED*/ %s /*END-EXTRACTED*/;\n' % (c, cells[c], init))
     fn_names = [m['fn'] for m in meta]
-    if all_cells:
+    if all_cells and not sc.get('skip_init'):
         ret_t = '(' + ', '.join(cells[c] for c in all_cells) + (',' if len(all_cells) == 1 else '') + ')'
         init_fn = 'fn %s_init(%s) -> (r: %s)\n    requires\n%s    ensures\n%s{\n%s    (%s)\n}\n' % (
             op, ', '.join('%s: %s' % (c, t) for c, t in captures.items() if not t.startswith('&mut')), ret_t,
